@@ -41,7 +41,7 @@ theorem Dec.scalar_at {α} {d : Dec} {pre x post : Bytes} (h : d.At pre (x ++ po
 
 theorem elVarint_enc (v : Nat) (hv : v < two64) (rest : Bytes) :
     elVarint (encVarint v ++ rest) = .ok (v, (encVarint v).length) := by
-  unfold elVarint
+  unfold elVarint nz
   rw [decodeVarint_encVarint v hv]
   have := encVarint_length_pos v
   have hne : ¬ (encVarint v).length = 0 := by omega
@@ -194,7 +194,7 @@ namespace Csproto
 /-! ### element readers on canonical encodings -/
 
 theorem elBool_enc (b : Bool) (rest : Bytes) : elBool ([boolByte b] ++ rest) = .ok (b, 1) := by
-  cases b <;> simp [elBool, elVarint, decodeVarint, boolByte, Res.map]
+  cases b <;> simp [elBool, elVarint, nz, decodeVarint, boolByte, Res.map]
 
 theorem elUint32_enc (v : Nat) (hv : v < two32) (rest : Bytes) :
     elUint32 (encVarint v ++ rest) = .ok (v, (encVarint v).length) := by
@@ -218,25 +218,23 @@ theorem elInt32_enc (i : Int) (h : InI32 i) (rest : Bytes) :
 
 theorem elFixed32_enc (v : Nat) (h : v < two32) (rest : Bytes) :
     elFixed32 (encFixed32 v ++ rest) = .ok (v, (encFixed32 v).length) := by
-  unfold elFixed32; rw [decodeFixed32_enc v h]; simp [encFixed32]
+  unfold elFixed32 nz; rw [decodeFixed32_enc v h]; simp [encFixed32]
 
 theorem elFixed64_enc (v : Nat) (h : v < two64) (rest : Bytes) :
     elFixed64 (encFixed64 v ++ rest) = .ok (v, (encFixed64 v).length) := by
-  unfold elFixed64; rw [decodeFixed64_enc v h]; simp [encFixed64]
+  unfold elFixed64 nz; rw [decodeFixed64_enc v h]; simp [encFixed64]
 
 theorem elSint32_enc (i : Int) (h : InI32 i) (rest : Bytes) :
-    (match decodeZigZag32 (encZigZag32 i ++ rest) with
-      | .ok (v, n) => if n = 0 then Res.err else .ok (v, n) | r => r)
-      = .ok (i, (encZigZag32 i).length) := by
+    elSint32 (encZigZag32 i ++ rest) = .ok (i, (encZigZag32 i).length) := by
+  unfold elSint32 nz
   rw [decodeZigZag32_enc i h]
   have := encVarint_length_pos (zigzag i)
   have : ¬ (encZigZag32 i).length = 0 := by unfold encZigZag32; omega
   simp [this]
 
 theorem elSint64_enc (i : Int) (h : InI64 i) (rest : Bytes) :
-    (match decodeZigZag64 (encZigZag64 i ++ rest) with
-      | .ok (v, n) => if n = 0 then Res.err else .ok (v, n) | r => r)
-      = .ok (i, (encZigZag64 i).length) := by
+    elSint64 (encZigZag64 i ++ rest) = .ok (i, (encZigZag64 i).length) := by
+  unfold elSint64 nz
   rw [decodeZigZag64_enc i h]
   have := encVarint_length_pos (zigzag i)
   have : ¬ (encZigZag64 i).length = 0 := by unfold encZigZag64; omega
